@@ -3,7 +3,7 @@ the append protocol, the index walk and the cadence bookkeeping."""
 import re
 
 from ..core import AnalysisError, anchor
-from .. import cfront
+from .. import cfront, normal
 from ..cfront import walk, strip, callee_name, call_args, render, line_of, is_assign, qtype
 from . import bytesacct, serial
 
@@ -130,7 +130,7 @@ def rule_reader(ctx):
     tu = cfront.load_tu('simulationarchive.c')
     n = 0
     # R06.3 checksum shape
-    fn = tu.func('reb_read_simulationarchive_from_stream_with_messages')
+    fn = normal.normalised_function(tu.func('reb_read_simulationarchive_from_stream_with_messages'), guards=False)   # while-with-counter == for
     conds = [render(x['inner'][0]).replace(' ', '') for x in walk(cfront.body(fn)) if x.get('kind') == 'IfStmt']
     n += 1
     ok = any('blob.offset_prev' in c and 'blobsize' in c and 'ftell' in c and 'sa.offset[i]' in c and '!=' in c for c in conds)
@@ -297,7 +297,7 @@ def rule_index_arrays(ctx):
     computed from the file position) before the snapshot is accepted (nblobs = i+1)."""
     from .c16 import c08_conditions
     tu = cfront.load_tu('simulationarchive.c')
-    fn = tu.func('reb_read_simulationarchive_from_stream_with_messages')
+    fn = normal.normalised_function(tu.func('reb_read_simulationarchive_from_stream_with_messages'), guards=False)   # while-with-counter == for
     arrays = set()
     for e in walk(cfront.body(fn)):
         if is_assign(e) and e['opcode'] == '=':
@@ -366,6 +366,7 @@ def rule_index_growth(ctx, rule='R06.8'):
             fn = tu.func(fname)
             if cfront.body(fn) is None:
                 continue
+            fn = normal.normalised_function(fn, guards=False)
             for loop in walk(cfront.body(fn)):
                 if loop.get('kind') != 'ForStmt' or not loop['inner'][2]:
                     continue
